@@ -1,0 +1,16 @@
+//go:build verif
+// +build verif
+
+package websocket
+
+import "io"
+
+// VerifSwapMaskRand replaces the source of client mask keys and returns the
+// previous source. It exists only in builds with the "verif" tag and is used
+// by the external verification harness in /verif to observe which bytes the
+// connection draws for every frame it builds.
+func VerifSwapMaskRand(r io.Reader) io.Reader {
+	old := maskRand
+	maskRand = r
+	return old
+}
